@@ -138,8 +138,11 @@ func goValue(i *interpreter, v value) interface{} {
 		if x.t == nil {
 			return nil
 		}
-		// error / Stringer: call the method in the interpreter when concrete
-		if !containsSym(x.v) {
+		// error / Stringer: call the method in the interpreter when concrete (not re-entrantly:
+		// a String method that formats its own receiver with %d must not recurse)
+		if !containsSym(x.v) && i.fmtDepth == 0 {
+			i.fmtDepth++
+			defer func() { i.fmtDepth-- }()
 			if m := methodOf(i, x.t, "Error"); m != nil {
 				if s, ok := safeCallString(i, m, x.v); ok {
 					return fmt.Errorf("%s", s)
@@ -430,31 +433,62 @@ func baEqual(i *interpreter, fr *frame, a []value) (value, bool) {
 	return i.mkBool(i.symStrEqTerm(symStr{bytesOf(a[0])}, symStr{bytesOf(a[1])})), true
 }
 
+// mapBytes is strings.ToLower / ToUpper on a symbolic string: ASCII letters are mapped exactly;
+// the two non-ASCII runes whose lower case is ASCII (U+212A KELVIN SIGN -> k, U+0130 -> i) are
+// mapped exactly; every other non-ASCII byte is left unchanged. The result is therefore exact
+// for comparisons against ASCII-only strings (keyword tables), which is its only use on
+// symbolic text.
 func mapBytes(i *interpreter, v value, lo, hi byte, delta int) (value, bool) {
 	s, ok := v.(symStr)
 	if !ok {
 		return nil, false
 	}
 	tc := i.tc
-	out := make([]value, len(s.b))
-	for k, e := range s.b {
+	isByte := func(e value, c byte) bool {
+		switch x := e.(type) {
+		case uint8:
+			return x == c
+		case symInt:
+			return i.decide(tc.eq(x.t, tc.bvConst(8, uint64(c))))
+		}
+		return false
+	}
+	out := make([]value, 0, len(s.b))
+	for k := 0; k < len(s.b); k++ {
+		e := s.b[k]
 		se, isSym := e.(symInt)
+		nonASCII := false
+		if !isSym {
+			nonASCII = e.(uint8) >= 0x80
+		} else {
+			nonASCII = i.decide(tc.op2(oUle, kBool, 0, tc.bvConst(8, 0x80), se.t))
+		}
+		if nonASCII {
+			if delta > 0 { // ToLower special cases
+				if k+2 < len(s.b) && isByte(e, 0xE2) && isByte(s.b[k+1], 0x84) && isByte(s.b[k+2], 0xAA) {
+					out = append(out, uint8('k'))
+					k += 2
+					continue
+				}
+				if k+1 < len(s.b) && isByte(e, 0xC4) && isByte(s.b[k+1], 0xB0) {
+					out = append(out, uint8('i'))
+					k++
+					continue
+				}
+			}
+			out = append(out, e)
+			continue
+		}
 		if !isSym {
 			c := e.(uint8)
-			if c >= 0x80 {
-				panic(pathAbort{"unsupported: case mapping of non-ASCII in symbolic string"})
-			}
 			if c >= lo && c <= hi {
 				c = byte(int(c) + delta)
 			}
-			out[k] = c
+			out = append(out, c)
 			continue
 		}
-		if i.decide(tc.op2(oUle, kBool, 0, tc.bvConst(8, 0x80), se.t)) {
-			panic(pathAbort{"unsupported: case mapping of non-ASCII in symbolic string"})
-		}
 		in := tc.and(tc.op2(oUle, kBool, 0, tc.bvConst(8, uint64(lo)), se.t), tc.op2(oUle, kBool, 0, se.t, tc.bvConst(8, uint64(hi))))
-		out[k] = i.mkInt(types.Typ[types.Uint8], 8, false, tc.ite(in, tc.op2(oAdd, kBV, 8, se.t, tc.bvConst(8, uint64(delta)&0xff)), se.t))
+		out = append(out, i.mkInt(types.Typ[types.Uint8], 8, false, tc.ite(in, tc.op2(oAdd, kBV, 8, se.t, tc.bvConst(8, uint64(delta)&0xff)), se.t)))
 	}
 	return normStr(symStr{out}), true
 }
